@@ -181,7 +181,7 @@ def oracle_assign(case, rec):
 
 
 def part_a(ctx, stats):
-    ncases = 260 if ctx.quick else 6000
+    ncases = 400 if ctx.quick else 6000
     cases = [gen_assign_case(ctx.rng, ctx.quick) for _ in range(ncases)]
     recs = [run_assign_impl(c) for c in cases]
     st = dict(cases=ncases, periodic=0, exact_weights=0, ties=0, wrapped=0, empty_cells=0,
@@ -272,12 +272,13 @@ SHARD_B = (C.SHARD_HEAD + "From Verif Require Import ListX MExp SparseKDEA.\n"
 
 
 def part_bc(ctx, stats):
-    ncases = 90 if ctx.quick else 1500
+    ncases = 220 if ctx.quick else 2000
     cases, recs = [], []
     st = dict(cases=ncases, kinds={}, dims={}, periodic=0, fspread=0, fit_errors={}, nonfinite=0,
               score_errors={}, kde_sent=0, kde_validated=0, kde_skipped_illcond=0, queries=0,
               far_terms=0, near_terms=0, self_queries=0, bw_checked=0, bw_outside_proviso=0,
-              skipped_predicted_nontermination=0, invariance={})
+              skipped_predicted_nontermination=0, invariance={},
+              hint_inverse_residual_max=0.0, hint_eig_powersum_residual_max=0.0)
     for _ in range(ncases):
         c = K.gen_fit_case(ctx.rng, ctx.quick)
         try:
@@ -302,8 +303,10 @@ def part_bc(ctx, stats):
             st["score_errors"][r["score_error"]] = st["score_errors"].get(r["score_error"], 0) + 1
     # ---- search with the property oracles (every case) ------------------------------------
     seen_cat = set()
+    failed_cases = set()
 
     def report(kind, msg, c, r, key=None, extra=None):
+        failed_cases.add(id(c))
         cat = (kind, key, category(msg))
         if cat in seen_cat:              # one replay per kind of failure is enough
             return
@@ -337,10 +340,12 @@ def part_bc(ctx, stats):
         inv[what + ":" + status] = inv.get(what + ":" + status, 0) + 1
         if msg:
             report("invariance", msg, c, r, key=invariance_key(c2, msg), extra=dict(transformed_case=c2))
+    directed(ctx, st)
     # ---- correspondence of the mixture formula inside Coq ------------------------------------
     idx = []
+    st["failed_ids"] = failed_cases
     for i, (c, r) in enumerate(zip(cases, recs)):
-        if "error" in r or "score_error" in r:
+        if "error" in r or "score_error" in r or id(c) in failed_cases:
             continue
         H = np.array(r["bandwidth"], dtype=float)
         if not np.all(np.isfinite(H)):
@@ -352,6 +357,17 @@ def part_bc(ctx, stats):
         idx.append(i)
         cut = K.kdecut2(c["d"])
         Hinv = np.array(r["Hinv"])
+        for h, hi in zip(H, Hinv):
+            res = float(np.max(np.abs(h @ hi - np.eye(c["d"]))))
+            st["hint_inverse_residual_max"] = max(st["hint_inverse_residual_max"], res)
+        for g in r["grids"]:
+            if g.get("cov") is not None and g.get("eig") is not None:
+                cv = np.array(g["cov"], dtype=float)
+                ev = np.array([z.real for z in g["eig"]])
+                sc = max(float(np.max(np.abs(cv))), 1e-300)
+                res = max(abs(float(np.sum(ev ** k) - np.trace(np.linalg.matrix_power(cv, k)))) / (c["d"] * sc) ** k
+                          for k in range(1, c["d"] + 1))
+                st["hint_eig_powersum_residual_max"] = max(st["hint_eig_powersum_residual_max"], res)
         D, G, Qa, _w, cell = K._arrays(c)
         for x in Qa:
             st["queries"] += 1
@@ -392,8 +408,10 @@ def part_bc(ctx, stats):
         rep = dict(case=cases[i], observed=_slim(recs[i]), correspondence="kde_case_ok (Model/SparseKDEA.v)")
         if msg:
             ctx._c17_report("mixture", msg, cases[i], recs[i])
-        else:
+        elif not st.get("kde_corr_reported"):
+            st["kde_corr_reported"] = True
             rep["note"] = "model and implementation disagree but the reference mixture accepts the output"
+            rep["disagreeing_cases"] = len(mismatched)
             C.report_violation(ctx, "C17 part B: correspondence mixture model vs implementation broken",
                                rep, found_input=False)
     part_c(ctx, cases, recs, st)
@@ -415,8 +433,9 @@ def part_c(ctx, cases, recs, st):
     st.update(bw_sent=0, bw_validated=0, bw_skipped_borderline=0, bw_skipped_complex_eig=0,
               bw_skipped_nonfinite=0, bw_skipped_illcond=0, bw_tuner_calls_max=0)
     idx = []
+    failed_cases = st.pop("failed_ids")
     for i, (c, r) in enumerate(zip(cases, recs)):
-        if "error" in r:
+        if "error" in r or id(c) in failed_cases:
             continue
         if not np.all(np.isfinite(np.array(r["bandwidth"], dtype=float))):
             st["bw_skipped_nonfinite"] += 1
@@ -447,11 +466,49 @@ def part_c(ctx, cases, recs, st):
         mismatched += [g[k] for k in lists[0]]
     st["bw_sent"] = len(idx)
     st["bw_validated"] = len(idx) - len(mismatched)
-    for i in mismatched:
+    for i in mismatched[:1]:          # one replay, with the number of disagreeing cases
         rep = dict(case=cases[i], observed=_slim(recs[i]), correspondence="bw_case_ok (Model/SparseKDEA.v)",
-                   note="bandwidth model (repaired behaviour) and implementation disagree; the property oracle accepts the output")
-        C.report_violation(ctx, "C17 part C: correspondence bandwidth model vs implementation broken",
-                           rep, found_input=False)
+                   disagreeing_cases=len(mismatched),
+                   note="bandwidth model (repaired behaviour: fixes F12, F14, F27) and implementation disagree; "
+                        "the property oracle accepts the output")
+        C.report_violation(ctx, "C17 part C: correspondence bandwidth model vs implementation broken "
+                           "(%d of %d cases)" % (len(mismatched), len(idx)), rep, found_input=False)
+
+
+def check_fit_case(c, rng, timeout=10):
+    """all property oracles on one fit case; returns list of (kind, message, key, extra)"""
+    out = []
+    est, r = K.fit_impl(c, timeout=timeout)
+    msg, _ = K.oracle_bandwidth(c, r)
+    if msg:
+        return [("bandwidth", msg, bandwidth_key(c, r, msg), None)], r
+    if est is None:
+        return out, r
+    K.score_impl(est, c, r)
+    msg = K.oracle_mixture(c, r)
+    if msg:
+        return [("mixture", msg, None, None)], r
+    if c.get("transformed_case") is not None:
+        c2 = c["transformed_case"]
+        msg, status, c2 = K.oracle_invariance(c, r, rng, c2["transform"]["kind"], c2=c2)
+        if msg:
+            out.append(("invariance", msg, invariance_key(c2, msg), dict(transformed_case=c2)))
+    return out, r
+
+
+def directed(ctx, st):
+    """frozen probes: one input per anticipated defect (F12, F13, F14, F26, F27, F28), run through
+    the same oracles as the random search, so each is (re)discovered on every seed"""
+    import json
+    import os
+    import random
+    cases = json.load(open(os.path.join(C.VERIF, "harness", "c17_directed.json")))
+    st["directed"] = {}
+    for c in cases:
+        fails, r = check_fit_case(c, random.Random(17), timeout=3 if "F28" in c["directed"] else 10)
+        st["directed"][c["directed"]] = [f[1][:80] for f in fails] or "holds"
+        for kind, msg, key, extra in fails:
+            ctx._c17_report(kind, msg, c, r, key=key, extra=extra)
 
 
 def _slim(r):
@@ -500,19 +557,40 @@ def run(ctx):
                            dict(theorem_file="coq/Properties/C17.v", log=po["log"][-2000:],
                                 scan=po["scan"], disallowed_axioms=po.get("disallowed_axioms")),
                            found_input=False)
+    # the refutation witness of the known finding F13 must keep compiling (vm_compute proofs)
+    import os
+    f13 = os.path.join(C.COQ, "Findings", "F13_periodic_covariance_images.v")
+    okf, outf, _cmd = C.coq_make(["Findings/F13_periodic_covariance_images.vo"], timeout=600)
+    scanf = C.source_scan([f13])
+    stats["findings_file"] = dict(file="coq/Findings/F13_periodic_covariance_images.v", builds=bool(okf), scan=scanf)
+    if not okf or scanf:
+        C.report_violation(ctx, "coq/Findings/F13_periodic_covariance_images.v does not build",
+                           dict(log=outf[-1500:], scan=scanf), found_input=False)
     cur, changed = C.drift_report(ctx.prop, ANCHORS)
     A = stats["assignment"]
+    B = stats["mixture_bandwidth"]
+    samples = [dict(case=casesA[0], observed=recsA[0])] if casesA else []
+    if casesB:
+        samples.append(dict(case=casesB[0], observed=_slim(recsB[0])))
     cov = dict(obligations=po["obligations"], discharged=po["discharged"], checker_cmd=po["checker_cmd"],
                theorems=po["theorems"], axioms=po["axioms"],
                trusted_base=C.TRUSTED_BASE_COMMON + [
-                   "binary64 is exact on the dyadic exactness domain of part A (sums of squares of small dyadics; weights with a power-of-two total)"],
-               evaluations=A["cases"], distinct_nontrivial=A["nontrivial"],
-               rule="part A: distinct input with >= 2 grid points and >= 2 distinct labels",
-               traces_validated_against_impl=A["validated"],
-               samples=[dict(case=casesA[i], observed=recsA[i]) for i in range(min(2, len(casesA)))],
-               distribution=stats, anchor_drift=changed)
+                   "binary64 is exact on the dyadic exactness domain of part A (sums of squares of small dyadics; weights with a power-of-two total)",
+                   "the binary64 exp/log/sin/cos/atan2/rint of Model/SparseKDEA.v (self-tested against numpy on every run)",
+                   "numpy.linalg inv/slogdet/eigvals results enter as hints whose defining equations are re-checked inside Coq (residuals recorded)"],
+               evaluations=A["cases"] + B["cases"] + B["queries"],
+               distinct_nontrivial=A["nontrivial"] + B["kde_validated"] + B["bw_validated"],
+               rule="part A: distinct input with >= 2 grid points and >= 2 distinct labels; parts B/C: distinct fitted "
+                    "estimators (>= 2 distinct grid points, 8+ descriptors) whose mixture values / bandwidths were "
+                    "reproduced by the Coq model within rtol 2^-27",
+               traces_validated_against_impl=A["validated"] + B["kde_validated"] + B["bw_validated"],
+               samples=samples, distribution=stats, anchor_drift=changed)
     return C.finish(ctx, "proof", cov, [
-        "layer D is exact over Z/Q; rounding outside the dyadic domain is not covered"])
+        "layer D is exact over Z/Q; rounding outside the dyadic domain is not covered",
+        "exp/log are uninterpreted in the theorems (four algebraic laws assumed); nothing is claimed about the density integrating to one",
+        "termination of the localisation tuners is not proved (fuel in the model); known finding tuner-nontermination",
+        "periodic _covariance is modelled as written and excluded from the image-invariance claims (known finding periodic-covariance-images)",
+        "the model follows the repaired code (fixes F12, F14, F26, F27)"])
 
 
 def replay(ctx, obj):
@@ -520,6 +598,12 @@ def replay(ctx, obj):
     if c.get("part") == "A":
         r = run_assign_impl(c)
         msg = oracle_assign(c, r)
+    elif c.get("part") == "F":
+        import random
+        if obj.get("transformed_case") is not None:
+            c = dict(c, transformed_case=obj["transformed_case"])
+        fails, _r = check_fit_case(c, random.Random(17))
+        msg = "; ".join("%s: %s" % (f[0], f[1]) for f in fails) or None
     else:
         print("replay: unknown case kind")
         return 2
